@@ -363,8 +363,7 @@ def resolver_contract():
         if parts is None or resolved is None:
             return z3.BoolVal(False)
         lc.st.assume(SP.fold_defn(parts, lc.i))      # definition of the spec fold at the current prefix
-        lc.st.assume(prefix_ext(parts, lc.i))        # sequence lemma (seq_lemmas): parts[:i+1] == parts[:i] ++ [parts[i]]
-        return resolved == SP.FOLD(z3.SubSeq(parts, 0, lc.i))
+        return resolved == SP.FOLDP(parts, lc.i if z3.is_expr(lc.i) else z3.IntVal(lc.i))
 
     b0, t0 = _param_name(ZIPU, "resolve_part_name", 0) or "base_dir", _param_name(ZIPU, "resolve_part_name", 1) or "target"
     return FnContract(
@@ -794,6 +793,65 @@ def _unfollowed_mutation(ctor, num_kw, ck):
     return pred
 
 
+def _counter_start(ck):
+    """numbering#counter-starts-at-zero-once-per-document for the functions that own their counter (or number by len(list) + 1)"""
+    if getattr(ck, "counter", None) is None and hasattr(ck, "len_numbering_start"):
+        pu = ck.called_once_per_document()
+        return ck.add("numbering", "counter-starts-at-zero-once-per-document", ck.len_numbering_start and not pu,
+                      f"called per unit from {pu}" if pu else ("" if ck.len_numbering_start else "the image list is not created empty once, outside the loops"),
+                      definite=False)
+    z = ck.starts_at_zero_once(ck.counter)
+    if z is not None and not isinstance(z, bool):
+        pu = ck.called_once_per_document()
+        ck.add("numbering", "counter-starts-at-zero-once-per-document", not pu, f"called per unit from {pu}")
+
+
+def _len_numbering(ck, ctor, num_kw, numbered):
+    """Every image takes `len(<the list it is appended to>) + 1` as its number: numbers are 1..n in append order by construction
+    (no counter at all).  Emits the numbering obligations as proved and returns True; False when the shape is different."""
+    from contracts import c14_sites as SI
+    from contracts.c14_flow import reaching
+    recv = set()
+    for c in numbered:
+        v, at = SI.kwv(c, num_kw), c
+        for _ in range(4):
+            if isinstance(v, ast.Name):
+                b = reaching(ck.fn, ck.pm, v.id, at)
+                if b is None or b.kind != "assign":
+                    return False
+                v, at = b.value, b.node
+            else:
+                break
+        t = ast.unparse(v).replace(" ", "")
+        apps = [n for n in ast.walk(ck.fn) if _append_of(ctor, True, num_kw, ck)(n) and _ctor_of_arg(ck, n.args[0], n, ctor) is c and isinstance(n.func.value, ast.Name)]
+        if len(apps) != 1:
+            return False
+        r = apps[0].func.value.id
+        if t not in (f"len({r})+1", f"1+len({r})"):
+            return False
+        # nothing is appended to the list between the evaluation of len() and the append of this image
+        between = [n for n in ast.walk(ck.fn) if isinstance(n, ast.Call) and isinstance(n.func, ast.Attribute) and isinstance(n.func.value, ast.Name)
+                   and n.func.value.id == r and n.func.attr in ("append", "extend", "insert", "pop", "remove", "clear")
+                   and (at.lineno, at.col_offset) < (n.lineno, n.col_offset) < (apps[0].lineno, apps[0].col_offset)]
+        if between:
+            return False
+        recv.add(r)
+    if len(recv) != 1:
+        return False
+    r = next(iter(recv))
+    if _unfollowed_mutation(ctor, num_kw, ck) and any(_unfollowed_mutation(ctor, num_kw, ck)(n) for n in ast.walk(ck.fn)):
+        return False
+    unnumbered = [n for n in ast.walk(ck.fn) if _append_of(ctor, False, num_kw, ck)(n)]
+    why = f"the number is len({r}) + 1 at the moment of the append"
+    ck.add("numbering", "one-increment-per-numbered-image", not unnumbered, why if not unnumbered else "an image without a number is appended too", definite=False)
+    ck.add("numbering", "number-is-the-counter-after-its-increment", True, why)
+    inits = [b for b in __import__("contracts.c14_flow", fromlist=["bindings_of"]).bindings_of(ck.fn, r) if b.kind == "assign"]
+    ok = len(inits) == 1 and isinstance(inits[0].value, ast.List) and not inits[0].value.elts and not SI.loops_around(ck.pm, inits[0].node)
+    ck.len_numbering_start = bool(ok)
+    ck.counter = None
+    return True
+
+
 def _counter_of(ck, ctor, num_kw):
     """The counter by its role: the one name used as `num_kw=` of the image constructor."""
     from contracts import c14_sites as SI
@@ -846,12 +904,20 @@ def _common(ck, ctor, num_kw, payload_kw, reads, counter, sniff_total=True):
                 ck.counter = hs["counter"]
                 _helper_style_obligations(ck, hs, hname, ("number-is-the-counter-after-its-increment", "one-increment-per-numbered-image", None))
                 break
+    if hs is None and numbered and _len_numbering(ck, ctor, num_kw, numbered):
+        return sites_after_numbering(ck, sites, payload_kw, reads)
     if hs is None:
         if not numbered:
             ck.unknown("numbering", "one-increment-per-numbered-image", f"no {ctor}({num_kw}=...) construction found")
             return sites
         ck.step_discipline(counter, _append_of(ctor, True, num_kw, ck), _append_of(ctor, False, num_kw, ck), unfollowed=_unfollowed_mutation(ctor, num_kw, ck))
         ck.number_is_counter_after_increment(counter, numbered, num_kw)
+    return sites_after_numbering(ck, sites, payload_kw, reads)
+
+
+def sites_after_numbering(ck, sites, payload_kw, reads):
+    from contracts import c14_sites as SI
+    from contracts.c14_flow import method_calls
     # (d) payload = value returned by the container read of the verified name, untransformed
     bad, n_ok = [], 0
     sinks = method_calls(ck.fn, reads)
@@ -1066,10 +1132,7 @@ def image_sites(repo, tier):
     ck = mk(DOCX, "_extract_images_from_context")
     if ck:
         sites = _common(ck, "DocxImage", "image_index", "data", ("get_image_data",), "image_counter")
-        z = ck.starts_at_zero_once(ck.counter)
-        if z is not None and not isinstance(z, bool):
-            pu = ck.called_once_per_document()
-            ck.add("numbering", "counter-starts-at-zero-once-per-document", not pu, f"called per unit from {pu}")
+        _counter_start(ck)
         _pixel_from_sniffer(ck, sites, "data")
         _ct_table(ck)
         _ct_from_extension(ck, sites, ("target",))
@@ -1079,7 +1142,7 @@ def image_sites(repo, tier):
     ck = mk(PPTX, "_process_slide_from_context")
     if ck:
         sites = _common(ck, "PptxImage", "image_index", "blob", ("get_image_data",), "image_counter")
-        z = ck.starts_at_zero_once(ck.counter)
+        z = ck.starts_at_zero_once(ck.counter) if getattr(ck, "counter", None) else (_counter_start(ck) and None)
         if z is not None and not isinstance(z, bool):
             pu = ck.called_once_per_document()
             ck.add("numbering", "counter-starts-at-zero-once-per-document", not pu,
@@ -1110,10 +1173,7 @@ def image_sites(repo, tier):
     ck = mk(XLSX, "_extract_images_from_zip")
     if ck:
         sites = _common(ck, "XlsxImage", "image_index", "data", ("read_bytes",), "image_counter")
-        z = ck.starts_at_zero_once(ck.counter)
-        if z is not None and not isinstance(z, bool):
-            pu = ck.called_once_per_document()
-            ck.add("numbering", "counter-starts-at-zero-once-per-document", not pu, f"called per unit from {pu}")
+        _counter_start(ck)
         _pixel_from_sniffer(ck, sites, "data")
         _ct_table(ck)
         _ct_from_extension(ck, sites, ("filename",))
@@ -1126,10 +1186,7 @@ def image_sites(repo, tier):
             continue
         sites = _common(ck, "OpenDocumentImage", "image_index", "data", ("read_bytes",), "image_counter")
         if not thread:
-            z = ck.starts_at_zero_once(ck.counter)
-            if z is not None and not isinstance(z, bool):
-                pu = ck.called_once_per_document()
-                ck.add("numbering", "counter-starts-at-zero-once-per-document", not pu, f"called per unit from {pu}")
+            _counter_start(ck)
         else:
             _threaded_counter(ck, "image_counter", "_extract_sheet", "read_ods")
         _odf_pixel(ck, sites)
@@ -1157,10 +1214,7 @@ def image_sites(repo, tier):
     ck = mk(EPUB, "_extract_images")
     if ck:
         sites = _common(ck, "EpubImage", "image_index", "data", ("read_bytes",), "image_counter")
-        z = ck.starts_at_zero_once(ck.counter)
-        if z is not None and not isinstance(z, bool):
-            pu = ck.called_once_per_document()
-            ck.add("numbering", "counter-starts-at-zero-once-per-document", not pu, f"called per unit from {pu}")
+        _counter_start(ck)
         bad = [LN(c) for c in sites if SI.kwv(c, "width") is None or SI.kwv(c, "height") is None]
         ck.add("pixel-size", "size-sniffed-from-the-payload", bool(sites) and not bad,
                f"EpubImage constructed without width= / height= (lines {bad}): the pixel size the file declares is never reported")
@@ -1270,7 +1324,7 @@ def _threaded_counter(ck, counter, via, reader):
     ok = is_param and ret_ok and rd is not None
     detail = ""
     if ok:
-        rk = SI.Checker("C14", ck.rel, reader, ck.mod.repo)
+        rk = SI.Checker("C14", ck.rel, reader, ck.mod.repo, inline=False)
         z = rk.starts_at_zero_once(counter)
         ok = z is not None and not isinstance(z, bool) and rk.obls == []
         detail = "; ".join(o["reason"] for o in rk.obls)
@@ -1393,7 +1447,7 @@ def _odp(ck, repo):
     is_param = any(a.arg == counter for a in ck.fn.args.args)
     returns = [n for n in ast.walk(ck.fn) if isinstance(n, ast.Return)]
     ret_ok = bool(returns) and all(isinstance(r.value, ast.Tuple) and any(isinstance(e, ast.Name) and e.id == counter for e in r.value.elts) for r in returns)
-    rk = SI.Checker("C14", ck.rel, "read_odp", repo)
+    rk = SI.Checker("C14", ck.rel, "read_odp", repo, inline=False)
     ok = is_param and ret_ok and rk.fn is not None
     cname = None
     if ok:
@@ -1407,24 +1461,51 @@ def _odp(ck, repo):
     ck.add("numbering", "counter-starts-at-zero-once-per-document", ok, "; ".join(o["reason"] for o in rk.obls), definite=False)
 
 
+def _arg_for(helper_fn, call, pname):
+    params = [x.arg for x in helper_fn.args.args]
+    if pname not in params:
+        return None
+    k = params.index(pname)
+    if k < len(call.args):
+        return call.args[k]
+    return next((kw.value for kw in call.keywords if kw.arg == pname), None)
+
+
 def _pdf(ck):
-    """pdf: number = enumerate(candidates, start=1) inside the per-page helper."""
+    """pdf: the number is the 1-based position of the candidate in the per-page candidate loop -- written as
+    `enumerate(candidates, start=1)` or as a counter incremented once at the top of every iteration."""
     from contracts import c14_sites as SI
+    from contracts.c14_flow import reaching
     helper = real_name(PDF, "_extract_image", ck.mod.repo)
+    hfn = ck.mod.functions.get(helper)
     calls = [n for n in ast.walk(ck.fn) if isinstance(n, ast.Call) and dotted(n.func) == helper]
-    if len(calls) != 1:
+    if len(calls) != 1 or hfn is None:
         return ck.unknown("numbering", "one-increment-per-numbered-image", f"{len(calls)} calls of the image helper")
     call = calls[0]
+    # which parameters of the helper become the image's number / unit (role: keyword of the PdfImage construction)
+    ek = SI.Checker("C14", ck.rel, "_extract_image", ck.mod.repo, real=helper)
+    sites = SI.ctor_calls(ek.fn, "PdfImage") if ek.fn is not None else []
+    pidx = {SI.kwv(c, "index").id for c in sites if isinstance(SI.kwv(c, "index"), ast.Name)}
+    punit = {SI.kwv(c, "unit_name").id for c in sites if isinstance(SI.kwv(c, "unit_name"), ast.Name)}
+    params = [x.arg for x in hfn.args.args]
+    idx = _arg_for(hfn, call, next(iter(pidx))) if len(pidx) == 1 and next(iter(pidx)) in params else None
+    unit = _arg_for(hfn, call, next(iter(punit))) if len(punit) == 1 and next(iter(punit)) in params else None
     loops = SI.loops_around(ck.pm, call)
     lp = loops[0] if loops else None
-    idx = call.args[2] if len(call.args) > 2 else None
-    enum_ok = (isinstance(lp, ast.For) and isinstance(lp.iter, ast.Call) and dotted(lp.iter.func) == "enumerate"
-               and any(k.arg == "start" and isinstance(k.value, ast.Constant) and k.value.value == 1 for k in lp.iter.keywords)
-               and isinstance(idx, ast.Name) and isinstance(lp.target, ast.Tuple) and isinstance(lp.target.elts[0], ast.Name)
-               and lp.target.elts[0].id == idx.id)
-    if not enum_ok:
-        return ck.unknown("numbering", "one-increment-per-numbered-image", "number is not the enumerate(…, start=1) index of the candidate loop")
-    # every candidate advances the number; an image is appended only when _extract_image returns: a failing candidate leaves a gap
+    if not isinstance(idx, ast.Name) or lp is None:
+        return ck.unknown("numbering", "one-increment-per-numbered-image", "the number handed to the image helper is not a plain local / not in a loop")
+    enum_form = (isinstance(lp, ast.For) and isinstance(lp.iter, ast.Call) and dotted(lp.iter.func) == "enumerate"
+                 and any(k.arg == "start" and isinstance(k.value, ast.Constant) and k.value.value == 1 for k in lp.iter.keywords)
+                 and isinstance(lp.target, ast.Tuple) and isinstance(lp.target.elts[0], ast.Name) and lp.target.elts[0].id == idx.id)
+    incs = [n for n in ast.walk(lp) if SI.is_inc(n, idx.id)]
+    counter_form = (not enum_form and len(incs) == 1 and any(incs[0] is x for x in lp.body) and
+                    not any(isinstance(n, (ast.Continue, ast.Break, ast.Return)) for x in lp.body[:[i for i, y in enumerate(lp.body) if y is incs[0]][0]] for n in ast.walk(x)))
+    if counter_form:
+        z = [b for b in __import__("contracts.c14_flow", fromlist=["bindings_of"]).bindings_of(ck.fn, idx.id) if b.kind == "assign" and not SI.is_inc(b.node, idx.id)]
+        counter_form = len(z) == 1 and isinstance(z[0].value, ast.Constant) and z[0].value.value == 0 and not SI.loops_around(ck.pm, z[0].node)
+    if not (enum_form or counter_form):
+        return ck.unknown("numbering", "one-increment-per-numbered-image", "the number is neither an enumerate(..., start=1) index nor a counter incremented once per candidate")
+    # every candidate advances the number; an image is appended only when the helper returns: a failing candidate leaves a gap
     in_try = any(isinstance(a, ast.Try) and any(h.type is None or "Exception" in ast.unparse(h.type) for h in a.handlers) and
                  not any(isinstance(x, ast.Call) and isinstance(x.func, ast.Attribute) and x.func.attr == "append" for h in a.handlers for x in ast.walk(h))
                  for a in SI.ancestors(ck.pm, call) if a in ast.walk(lp))
@@ -1433,14 +1514,12 @@ def _pdf(ck):
            "candidate positions (gap in 1..n)" if in_try else "")
     pu = ck.called_once_per_document()
     ck.add("numbering", "counter-starts-at-zero-once-per-document", not pu,
-           f"the enumerate index restarts at 1 for every page: {ck.fname} is called in the page loop of {', '.join(f'{q} (line {l})' for q, l in pu)}")
-    # unit attribution and payload in _extract_image
-    ek = SI.Checker("C14", ck.rel, "_extract_image", ck.mod.repo, real=helper)
-    if ek.fn is not None:
-        sites = SI.ctor_calls(ek.fn, "PdfImage")
-        ok = bool(sites) and all(isinstance(SI.kwv(c, "index"), ast.Name) and SI.kwv(c, "index").id == "index" and
-                                 isinstance(SI.kwv(c, "unit_name"), ast.Name) and SI.kwv(c, "unit_name").id == "page_num" for c in sites)
-        ck.add("unit", "image-carries-its-index-and-page", ok and len(call.args) > 3 and ast.unparse(call.args[3]) == "page_num", "")
+           f"the candidate position restarts at 1 for every page: {ck.fname} is called in the page loop of {', '.join(f'{q} (line {l})' for q, l in pu)}")
+    # unit attribution: the helper stores two of its parameters as number and unit; the caller hands over the position and its own page parameter
+    unit_ok = isinstance(unit, ast.Name) and (lambda b: b is not None and b.kind == "param")(reaching(ck.fn, ck.pm, unit.id, call))
+    if not sites or len(pidx) != 1 or len(punit) != 1:
+        return ck.unknown("unit", "image-carries-its-index-and-page", "the image helper does not store two of its parameters as number and unit")
+    ck.add("unit", "image-carries-its-index-and-page", bool(unit_ok), "" if unit_ok else "the unit handed to the image helper is not the page parameter", definite=False)
 
 
 # =====================================================================================
